@@ -10,7 +10,7 @@ PROP = "C16"
 
 USE_CACHE = ["omitted", "true", "false"]
 STRUCT = ["omitted", "true", "false"]
-EXTS = ["omitted", "rs", "rs+x", "x"]
+EXTS = ["omitted", "rs", "rs+x", "x"]      # (an explicit empty list is an error exit, below)
 LOCK = ["absent", "valid_ahead", "corrupt", "empty", "out_of_range", "negative", "float"]
 MODE = ["check", "edit"]
 TREE = ["missing", "none_missing"]
@@ -174,15 +174,18 @@ def work(job):
 
 
 ERRORS = ["missing_config", "invalid_yaml", "yaml_wrong_type", "missing_source_dir", "source_dir_is_file", "no_in_scope_files",
-          "empty_source_dir", "missing_required_key"]
+          "empty_source_dir", "missing_required_key", "explicit_empty_extensions", "use_cache_not_a_bool"]
 
 
 def error_work(job):
-    built, kind, mode = job
+    built, kind, mode = job[:3]
+    with_lock = job[3] if len(job) > 3 else False
     res = {"evaluations": 1, "nontrivial": [], "violations": [], "samples": [], "inconclusive": {}, "counters": {}}
     with core.Box(tag="c16e") as box:
         for rel, data in FILES_MISSING.items():
             box.write(rel, data)
+        if with_lock:
+            box.write("Breadlog.lock", core.lock_text(77))
         cfgp = os.path.join(box.proj, "Breadlog.yaml")
         if kind == "missing_config":
             pass
@@ -198,6 +201,10 @@ def error_work(job):
             box.write("Breadlog.yaml", core.make_config(source_dir="src/a.rs"))
         elif kind == "no_in_scope_files":
             box.write("Breadlog.yaml", core.make_config(extensions=["zz"]))
+        elif kind == "explicit_empty_extensions":
+            box.write("Breadlog.yaml", core.make_config(extra="  extensions: []\n"))
+        elif kind == "use_cache_not_a_bool":
+            box.write("Breadlog.yaml", core.make_config().replace("source_dir: src\n", "source_dir: src\nuse_cache: [1, 2]\n"))
         elif kind == "empty_source_dir":
             os.makedirs(os.path.join(box.proj, "emptysrc"))
             box.write("Breadlog.yaml", core.make_config(source_dir="emptysrc"))
@@ -207,7 +214,8 @@ def error_work(job):
     if r.panicked():
         res["inconclusive"]["run-crashed (C17's business)"] = 1
         return res
-    res["nontrivial"].append("error|%s|%s" % (kind, mode))
+    res["nontrivial"].append("error|%s|%s|lock=%s" % (kind, mode, with_lock))
+    kind = kind + ("+lock" if with_lock else "")
     res["counters"]["error_exits"] = 1
     diff = core.snap_diff(before, after, meta=False)
     if r.rc == 0 or r.sig:
@@ -230,11 +238,11 @@ def main(tier):
         points = points + [p + (lv,) for p in points for lv in (4, 123456, 4294967000) if p[3] == "valid_ahead"]
     for res in frame.pmap(work, [(built, p) for p in points], chunksize=8):
         ck.absorb(res)
-    for res in frame.pmap(error_work, [(built, k, m) for k in ERRORS for m in MODE]):
+    for res in frame.pmap(error_work, [(built, k, m, wl) for k in ERRORS for m in MODE for wl in (False, True)]):
         ck.absorb(res)
     ck.exhaustive = True
     ck.extra["product_points"] = len(points)
-    ck.extra["error_points"] = len(ERRORS) * 2
+    ck.extra["error_points"] = len(ERRORS) * 4
     ck.rule = ("full product use_cache{omitted,true,false} x structured{omitted,true,false} x extensions{omitted,[rs],[rs,x],[x]} x "
                "lock{absent,valid-ahead,corrupt,empty,out-of-range,negative,float} x mode x tree{missing,none missing} = %d points (exhaustive:true refers to this "
                "product) + %d error exits; observables: exit status, snapshot diff, lock before/after, whether the lock file was "
